@@ -16,7 +16,7 @@ Definition int16_dec_precision : option Z := Some 5.
 Definition int32_dec_precision : option Z := Some 10.
 Definition int64_dec_precision : option Z := Some 19.
 Definition int8_dec_precision : option Z := Some 3.
-Definition int_to_decimal_pow_i32 : option Z := Some 1.
+Definition int_to_decimal_pow_i32 : option Z := Some 0.
 Definition mul_native : option Z := Some 1.
 Definition neg_native : option Z := Some 1.
 Definition rem_native : option Z := Some 1.
